@@ -214,9 +214,20 @@ impl Matrix {
         }
     }
 
-    /// Fill the matrix with a constant value.
+    /// Fill the matrix with a constant value: afterwards every entry reads `value`.
+    ///
+    /// A `Full` matrix keeps its storage. A `Banded` matrix can only hold the constant zero;
+    /// for any other constant, and for `Identity` storage (whose two-element backing store must
+    /// not be overwritten), the matrix switches to `Full` storage.
     pub fn fill(&mut self, value: Float) {
-        self.data.fill(value);
+        match self.storage {
+            MatrixStorage::Full => self.data.fill(value),
+            MatrixStorage::Banded { .. } if value == 0.0 => self.data.fill(0.0),
+            _ => {
+                self.storage = MatrixStorage::Full;
+                self.data = vec![value; self.n * self.m];
+            }
+        }
     }
 }
 
